@@ -1,3 +1,35 @@
-From V Require Import Base.Bytes Base.Obs.
-Definition case := nat.
-Definition run (c : case) : obs := OL [].
+From Coq Require Import List Arith.
+Import ListNotations.
+From V Require Import Base.Bytes Base.Obs Model.Escape Model.Tok Proofs.RoundTrip Model.Fmt Gen.Sites_C19.
+(* kind 0: the model's layout of the parsed source, to be compared byte for byte with Format's output;
+   kind 1: the bytes Format wrote are parsed by the model's own tokenizer and tree builder and laid out
+           again by the model: must reproduce those bytes (idempotence, evaluated on real output) *)
+Record case := { c_kind : nat; c_out : bytes; c_dom : list node }.
+Definition fmt := format_forest voids inlines phrasings.
+(* the model tokenizer / tree builder of C02 reads serialisations in which every element has an end tag
+   and quotes are written &#34;: adapt the formatter's output language to it (void elements closed at
+   once, &quot; read as &#34;) *)
+Fixpoint requot (fuel : nat) (s : bytes) : bytes :=
+  match fuel with O => s | S f =>
+  match s with
+  | [] => []
+  | c :: r => match strip (bs "&quot;") s with
+              | Some rest => bs "&#34;" ++ requot f rest
+              | None => c :: requot f r
+              end
+  end end.
+Definition rq (s : bytes) : bytes := requot (length s) s.
+Definition fix_tok (t : token) : list token :=
+  match t with
+  | TStart n a => TStart n (map (fun kv => (fst kv, rq (snd kv))) a) :: (if mem n voids then [TEnd n] else [])
+  | TText raw => [TText (rq raw)]
+  | TEnd n => [TEnd n]
+  end.
+Definition run (c : case) : obs :=
+  match c_kind c with
+  | 0 => OA (fmt (c_dom c))
+  | _ => match build (flat_map fix_tok (tokens (c_out c))) [] [] with
+         | Some f => OA (fmt f)
+         | None => OL [OS "unreadable"]
+         end
+  end.
